@@ -44,11 +44,17 @@ Verdict(c) ==
     [] c.mode = "layout" -> c.obs = c.val /\ \A i \in 1..Len(c.notices) : c.notices[i] % c.N = 0
     [] c.mode = "comment" -> c.obs = c.val /\ IsMerge(c.cwords, c.attached)
 
+\* Constant-level tables (TLC caches LET / argument values only for constant-level
+\* expressions; under a state the recursive operators are re-evaluated at every
+\* reference, which is exponential in the nesting depth of the terms).
+Verdicts == [i \in 1..Len(Cases) |-> IF Cases[i].mode = "cut" THEN FALSE ELSE Verdict(Cases[i])]
+
 \* C11: which of the four (empty-at-cut, str-key-at-cut) variants the output equals
 CutVariants(c) == {<<re, rk>> \in BOOLEAN \X BOOLEAN : c.obs = CutSyn(c.val, c.N, re, rk)}
+Cuts == [i \in 1..Len(Cases) |-> IF Cases[i].mode = "cut" THEN CutVariants(Cases[i]) ELSE {}]
 
 Report ==
   IF Cases[cs].mode = "cut"
-  THEN PrintT(<<"CUT", Cases[cs].id, CutVariants(Cases[cs])>>)
-  ELSE Verdict(Cases[cs]) => PrintT(<<"ACCEPT", Cases[cs].id>>)
+  THEN PrintT(<<"CUT", Cases[cs].id, Cuts[cs]>>)
+  ELSE Verdicts[cs] => PrintT(<<"ACCEPT", Cases[cs].id>>)
 =============================================================================
